@@ -83,6 +83,9 @@ Restart ==
         /\ Chk("unacknowledged_all_or_prefix", \A f \in fans : prefixOK(f))
         /\ Chk("restart_succeeds", e.restarted)
         /\ Chk("settled_not_offered", (gone \cup deadk) \cap SeqRange(e.offered) = {})
+        \* C03: a lease the consumer still holds (unexpired when the early poll after the restart was answered) is still
+        \* exclusive - the restart neither ended it nor handed the message to somebody else
+        /\ Chk("lease_survives_restart", e.live_offered = <<>>)
         /\ Chk("offered_again", \A k \in (must \ (deadk \cup maydead)) \cap SeqRange(e.pullkeys) : k \in SeqRange(e.offered))
   /\ UNCHANGED <<sent, must, gone, deadk, maydead, qd, mayb, fans>>
 
